@@ -42,7 +42,7 @@ def battery(fqe, seed, tier, log=None):
         (4, 2, 2), (5, 1, 4), (6, 3, 3),
         (9, 0, 1), (10, 0, 1), (11, 0, 1), (10, 1, 1),                                    # STATES_PER_SET boundaries
         (30, 0, 2), (15, 1, 3), (11, 1, 5), (31, 0, 2), (12, 4, 1), (33, 2, 0), (40, 2, 1),                                 # lenb 435, 455, 462, 465
-        (9, 4, 1),                                                                        # lena 126 > 100
+        (9, 4, 1), (10, 1, 3), (9, 4, 4),                                                 # lena 126 > 100; 10 x 120; 126 x 126: several 100-string blocks in the blocked RDM kernels, beta block offset above the alpha one
         (31, 1, 1), (32, 1, 0), (33, 0, 1), (63, 1, 0), (64, 0, 1), (64, 1, 1),           # top orbital indices
     ]
     if tier != "quick":
@@ -81,10 +81,10 @@ def battery(fqe, seed, tier, log=None):
                         put(f"sevolve:{m1}:{tag}", numpy.round(wn.time_evolve(0.2, ham).get_coeff(key), 9))
                 except Exception as exc:
                     out[f"sparse:{m1}:{tag}"] = "raise:" + type(exc).__name__
-        if dim <= 4000 and norb <= 12:
+        if dim <= 20000 and norb <= 12:
             mark("rdm " + tag)
             put(f"rdm1:{tag}", w.rdm("i^ j"))
-            if norb <= 9:
+            if norb <= 9 and dim <= 4000:
                 put(f"rdm2:{tag}", w.rdm("i^ j^ k l"))
             if norb <= 5:
                 put(f"rdm3:{tag}", w.rdm("i^ j^ k^ l m n"))
